@@ -339,6 +339,16 @@ pub fn run(data: &[u8], ctx: &mut Ctx) -> Outcome {
             check!(ctx, matches!(r2, Ok(x) if x == want), "threshold", "C09/threshold", "has_signatures_from disagrees with the all-keys rule");
         }
     }
+    // an empty key list: no key has signed, so no threshold of one or more is met
+    {
+        let none: Vec<&dyn Verifier> = Vec::new();
+        for t in [Some(1usize), Some(2)] {
+            let r = nopanic!(ctx, signed.has_signatures_from_threshold(&none, t), "threshold", "C09/threshold/empty-list");
+            check!(ctx, !matches!(r, Ok(true)), "threshold", "C09/threshold/empty-list", "has_signatures_from_threshold(no keys, t={:?}) = Ok(true)", t);
+            let v = nopanic!(ctx, signed.verify_signatures_from_threshold(&none, t), "threshold", "C09/threshold/empty-list");
+            check!(ctx, v.is_err(), "threshold", "C09/threshold/empty-list", "verify_signatures_from_threshold(no keys, t={:?}) succeeded", t);
+        }
+    }
     ctx.class(&format!("threshold:have={}of{}", have.min(3), list.len().min(5)));
 
     // --- wrapped sign / verify
